@@ -6,7 +6,6 @@ import (
 
 	"github.com/grailbio/base/backgroundcontext"
 	"github.com/grailbio/base/compress/zstd"
-	"github.com/grailbio/base/errors"
 	"github.com/grailbio/base/file"
 	"github.com/grailbio/base/log"
 	"github.com/grailbio/bigslice/frame"
@@ -76,12 +75,17 @@ func (r *writethroughReader) Read(ctx context.Context, frame frame.Frame) (int, 
 	n, err := r.Reader.Read(ctx, frame)
 	if err == nil || err == sliceio.EOF {
 		if writeErr := r.enc.Write(ctx, frame.Slice(0, n)); writeErr != nil {
+			r.file.Discard(backgroundcontext.Get())
 			return n, writeErr
 		}
 		if err == sliceio.EOF {
-			closeErr := r.zw.Close()
-			errors.CleanUpCtx(ctx, r.file.Close, &closeErr)
-			if closeErr != nil {
+			// Commit the file only if all of its contents were written: a
+			// file that is present must hold the complete shard.
+			if closeErr := r.zw.Close(); closeErr != nil {
+				r.file.Discard(backgroundcontext.Get())
+				return n, closeErr
+			}
+			if closeErr := r.file.Close(ctx); closeErr != nil {
 				return n, closeErr
 			}
 		}
